@@ -15,7 +15,7 @@ CONSTANT Steps          \* length of the exported behaviours
 VARIABLES hist, want, wantT
 rvars == <<vars, hist, want, wantT>>
 
-KindSeq == <<"insert", "insert", "insert", "update", "delete", "unlink">>   \* inserts weigh more: tables must fill up before the rest is interesting
+KindSeq == <<"insert", "insert", "insert", "insert", "update", "delete", "unlink", "delkey">>   \* inserts weigh more: tables must fill up before the rest is interesting
 Kinds == 1..Len(KindSeq)
 Sizes(d) == [n \in Names |-> Len(d[n])]
 IdsAt(n, pos) == LET s == SetToSeq(pos) IN [k \in 1..Len(s) |-> db[n][s[k]].id]
@@ -39,11 +39,21 @@ RDeleteLink(n, i) == /\ ~Tbl(Meta, n).primary /\ i \in 1..Len(db[n])
                      /\ Delete(n, {j \in 1..Len(db[n]) : db[n][j].c = db[n][i].c})
                      /\ hist' = Append(hist, Rec("unlink", n, db[n][i].c, 0, <<>>))
 
+\* by-foreign-key deletion (Delete<T>sBy<Key>s): every row whose key is among the given ids of the target table, in one
+\* statement; no such row: the call succeeds and changes nothing
+RDeleteByKey(n, k, S) ==
+    LET t == Tbl(Meta, n)  fk == t.fks[k]
+        pos == {i \in 1..Len(db[n]) : \E id \in S : Val(t, db[n][i], fk.field) = IdStr(id)} IN
+    /\ k \in 1..Len(t.fks) /\ S # {} /\ \A id \in S : id <= next[fk.ref]
+    /\ IF pos = {} THEN UNCHANGED <<db, next>> /\ last' = "delete ok" ELSE Delete(n, pos)
+    /\ hist' = Append(hist, Rec("delkey", n, <<fk.field>>, 0, SetToSeq(S)))
+
 \* the simulator draws uniformly among successor states: the kind of the step is drawn one step ahead (want), so
 \* that the four kinds are equally likely whatever the number of argument rows each has
 Can(k) == CASE k = "insert" -> \E n \in Names : Len(db[n]) < MaxRows /\ next[n] <= MaxRows
             [] k = "update" -> \E n \in Names : Tbl(Meta, n).primary /\ db[n] # <<>>
             [] k = "delete" -> \E n \in Names : Tbl(Meta, n).primary /\ db[n] # <<>>
+            [] k = "delkey" -> \E n \in Names : Tbl(Meta, n).fks # <<>> /\ db[n] # <<>>
             [] OTHER -> \E n \in Names : ~Tbl(Meta, n).primary /\ db[n] # <<>>
 Pick(k) == KindSeq[want] = k \/ ~Can(KindSeq[want])
 \* (likewise the table of an insert: the link table has many more argument rows than the others, most of them refused)
@@ -55,6 +65,7 @@ RNext == /\ Len(hist) < Steps
             \/ Pick("update") /\ \E n \in Names : \E i \in 1..MaxRows : \E c \in RowsOf(n) : RUpdate(n, i, c)
             \/ Pick("delete") /\ \E n \in Names : \E pos \in SUBSET (1..MaxRows) : RDeleteIds(n, pos)
             \/ Pick("unlink") /\ \E n \in Names : \E i \in 1..MaxRows : RDeleteLink(n, i)
+            \/ Pick("delkey") /\ \E n \in Names : \E k \in 1..2 : \E S \in SUBSET (1..MaxRows) : db[n] # <<>> /\ RDeleteByKey(n, k, S)
 \* (the simulator evaluates invariants on every successor it generates: the closing step has a single successor,
 \*  so that exactly the behaviour that was walked is exported)
 RFinish == Len(hist) = Steps /\ last # "done" /\ last' = "done" /\ UNCHANGED <<db, next, hist, want, wantT>>
